@@ -4,7 +4,7 @@
 //! Stream LENGTHS are concrete (boundary grid); stream CONTENTS and the `compressed` flag are symbolic.
 use crate::c04::{stub_format, stub_into_repr, stub_noop_mul};
 use crate::c08::{Q, R};
-use pp::bls12_381::{Fq, Fq12, FqRepr, Fr, FrRepr, G1Affine, G1Compressed, G1Uncompressed, G2Affine, G2Compressed, G2Uncompressed, G1};
+use pp::bls12_381::{Fq, Fq12, FqRepr, Fr, FrRepr, G1Affine, G1Compressed, G1Uncompressed, G2Affine, G2Compressed, G2Uncompressed, G1, G2};
 use pp::serdes::SerDes;
 use pp::{CurveAffine, CurveProjective, EncodedPoint, GroupDecodingError};
 
@@ -78,6 +78,25 @@ pub fn enc_g1u(_p: G1Affine) -> G1Uncompressed {
     e
 }
 
+pub fn enc_g2c(_p: G2Affine) -> G2Compressed {
+    let mut e = G2Compressed::empty();
+    let mut i = 0;
+    while i < 96 {
+        e.as_mut()[i] = unsafe { ENC_BYTES[i] };
+        i += 1;
+    }
+    e
+}
+pub fn enc_g2u(_p: G2Affine) -> G2Uncompressed {
+    let mut e = G2Uncompressed::empty();
+    let mut i = 0;
+    while i < 192 {
+        e.as_mut()[i] = unsafe { ENC_BYTES[i] };
+        i += 1;
+    }
+    e
+}
+
 macro_rules! point_stubs {
     ($unw:expr, $item:item) => {
         #[kani::proof]
@@ -88,6 +107,8 @@ macro_rules! point_stubs {
         #[kani::stub(<pairing_plus::bls12_381::G2Uncompressed as pairing_plus::EncodedPoint>::into_affine, dec_g2u)]
         #[kani::stub(<pairing_plus::bls12_381::G1Compressed as pairing_plus::EncodedPoint>::from_affine, enc_g1c)]
         #[kani::stub(<pairing_plus::bls12_381::G1Uncompressed as pairing_plus::EncodedPoint>::from_affine, enc_g1u)]
+        #[kani::stub(<pairing_plus::bls12_381::G2Compressed as pairing_plus::EncodedPoint>::from_affine, enc_g2c)]
+        #[kani::stub(<pairing_plus::bls12_381::G2Uncompressed as pairing_plus::EncodedPoint>::from_affine, enc_g2u)]
         #[kani::stub(alloc::fmt::format, stub_format)]
         $item
     };
@@ -199,6 +220,105 @@ fn g1_projective_de_and_ser() {
     std::mem::forget(r);
     std::mem::forget(s);
     std::mem::forget(out);
+}
+}
+
+/// G2 (projective) deserialize from a stream of LEN symbolic bytes: same contract as the affine form
+macro_rules! g2_projective_de {
+    ($name:ident, $len:expr) => {
+        point_stubs! { 196,
+        fn $name() {
+            let data: [u8; $len] = kani::any();
+            let compressed: bool = kani::any();
+            unsafe { DEC_OK = kani::any(); DEC_CALLS = 0; }
+            let mut reader: &[u8] = &data[..];
+            let r = <G2 as SerDes>::deserialize(&mut reader, compressed);
+            let left = reader.len();
+            let need: usize = if compressed { 96 } else { 192 };
+            let flag_ok = $len >= 96 && ((data[0] & 0x80 != 0) == compressed);
+            if $len < 96 || !flag_ok || $len < need {
+                assert!(r.is_err());
+                assert!(unsafe { DEC_CALLS } == 0);
+            } else {
+                assert!(unsafe { DEC_CALLS } == 1 && unsafe { DEC_KIND } == if compressed { 3 } else { 4 });
+                assert!(r.is_ok() == unsafe { DEC_OK });
+                assert!(left == $len - need);
+                let mut i = 0;
+                while i < need {
+                    assert!(unsafe { DEC_SEEN[i] } == data[i]);
+                    i += 1;
+                }
+            }
+            std::mem::forget(r);
+        }
+        }
+    };
+}
+g2_projective_de!(g2_projective_de_95, 95);
+g2_projective_de!(g2_projective_de_97, 97);
+g2_projective_de!(g2_projective_de_191, 191);
+g2_projective_de!(g2_projective_de_193, 193);
+
+/// G1 projective deserialize on truncated / exact streams (the affine macro above covers G1Affine)
+macro_rules! g1_projective_de {
+    ($name:ident, $len:expr) => {
+        point_stubs! { 100,
+        fn $name() {
+            let data: [u8; $len] = kani::any();
+            let compressed: bool = kani::any();
+            unsafe { DEC_OK = kani::any(); DEC_CALLS = 0; }
+            let mut reader: &[u8] = &data[..];
+            let r = <G1 as SerDes>::deserialize(&mut reader, compressed);
+            let left = reader.len();
+            let need: usize = if compressed { 48 } else { 96 };
+            let flag_ok = $len >= 48 && ((data[0] & 0x80 != 0) == compressed);
+            if $len < 48 || !flag_ok || $len < need {
+                assert!(r.is_err());
+                assert!(unsafe { DEC_CALLS } == 0);
+            } else {
+                assert!(unsafe { DEC_CALLS } == 1 && r.is_ok() == unsafe { DEC_OK } && left == $len - need);
+                let mut i = 0;
+                while i < need {
+                    assert!(unsafe { DEC_SEEN[i] } == data[i]);
+                    i += 1;
+                }
+            }
+            std::mem::forget(r);
+        }
+        }
+    };
+}
+g1_projective_de!(g1_projective_de_47, 47);
+g1_projective_de!(g1_projective_de_95, 95);
+g1_projective_de!(g1_projective_de_96, 96);
+
+point_stubs! { 196,
+fn serialize_all_point_types() {
+    // serialize writes exactly the encoder's bytes (48/96 for G1, 96/192 for G2), projective = affine form of into_affine()
+    let compressed: bool = kani::any();
+    unsafe { ENC_BYTES = kani::any(); }
+    let n1: usize = if compressed { 48 } else { 96 };
+    let n2: usize = if compressed { 96 } else { 192 };
+    let mut o1: Vec<u8> = Vec::new();
+    let mut o2: Vec<u8> = Vec::new();
+    let mut o3: Vec<u8> = Vec::new();
+    let mut o4: Vec<u8> = Vec::new();
+    let s1 = G1::one().serialize(&mut o1, compressed);
+    let s2 = G1Affine::one().serialize(&mut o2, compressed);
+    let s3 = G2::one().serialize(&mut o3, compressed);
+    let s4 = G2Affine::one().serialize(&mut o4, compressed);
+    assert!(s1.is_ok() && s2.is_ok() && s3.is_ok() && s4.is_ok());
+    assert!(o1.len() == n1 && o2.len() == n1 && o3.len() == n2 && o4.len() == n2);
+    let mut i = 0;
+    while i < n2 {
+        if i < n1 {
+            assert!(o1[i] == unsafe { ENC_BYTES[i] } && o2[i] == unsafe { ENC_BYTES[i] });
+        }
+        assert!(o3[i] == unsafe { ENC_BYTES[i] } && o4[i] == unsafe { ENC_BYTES[i] });
+        i += 1;
+    }
+    std::mem::forget((s1, s2, s3, s4));
+    std::mem::forget((o1, o2, o3, o4));
 }
 }
 
